@@ -1,10 +1,11 @@
 #!/bin/bash
 # usage: scripts/sweep.sh <tier> <seed>...   runs every check at the given seeds
 # and prints one line per run; used to confirm silence on the unchanged tree.
+# SWEEP_IDS="01 05" restricts the run to some checks.
 cd "$(dirname "$0")/.."
 TIER=$1; shift
 for s in "$@"; do
-	for i in 01 02 03 04 05 06 07 08 09 10 11 12 13 14 15 16 17 18 19 20; do
+	for i in ${SWEEP_IDS:-01 02 03 04 05 06 07 08 09 10 11 12 13 14 15 16 17 18 19 20}; do
 		t0=$(date +%s)
 		VERIF_SEED=$s ./check C$i $TIER >/tmp/sweep_$$.log 2>&1
 		rc=$?
